@@ -48,6 +48,7 @@ func appendedElem(cl *ssa.Call) (ssa.Value, ssa.Value) {
 func checkC07(c *Ctx) {
 	e1CheckConstants(c, "C07-K7", []string{"dhcpv4.", "iana.Arch", "iana.HWType"}, 200)
 	byteOrderRule(c, "C07-K8", []string{"dhcpv4", "iana", "rfc1035label"}, 10)
+	platformWidthRule(c, "C07-K9", []string{"dhcpv4", "iana", "rfc1035label"})
 	r := c.R
 	r.Decides = append(r.Decides,
 		"K1 map-order independence: in the closure of the DHCPv4 encoders and printers every range over a map only collects keys into a slice that is sorted before any other use, sets flags, or fills another map",
